@@ -591,7 +591,7 @@ func c16N(tier string) int {
 	if tier == "thorough" {
 		return 8000 // x40 queries
 	}
-	return 250
+	return 700
 }
 
 func c16OpCases() int { return len(c16Pool) }
